@@ -152,7 +152,10 @@ func NewMerkleBlock(block *bchutil.Block, filter *Filter) (*wire.MsgMerkleBlock,
 	}
 
 	// Build the depth-first partial merkle tree.
-	mBlock.traverseAndBuild(height, 0)
+	// A block without transactions has no tree to traverse.
+	if mBlock.numTx > 0 {
+		mBlock.traverseAndBuild(height, 0)
+	}
 
 	// Create and return the merkle block.
 	msgMerkleBlock := wire.MsgMerkleBlock{
